@@ -88,7 +88,17 @@ def gen_history(rng, tier, focus):
         p = {}; bs = 131072
     elif api == "legacy":
         L.append("API legacy")
-    if rng.random() < 0.25:
+    stable = False
+    if api == "2" and rng.random() < 0.2:
+        # stable-buffer modes: the caller promises not to move the buffers between calls
+        si, so = rng.choice([(1, 0), (0, 1), (1, 1)])
+        if si:
+            L.append("P %d 1" % P_STIN)
+        if so:
+            L.append("P %d 1" % P_STOUT)
+        L.append("STABLE %d %d" % (si, so))
+        stable = True
+    elif rng.random() < 0.25:
         L.append("MOVE 1")
     nframes = rng.choice([1, 1, 1, 2, 3])
     maxsrc = 3000 if tiny_caps else (rng.choice([0, 1, 50, bs - 1, bs, bs + 1, 3 * bs + 1, 20000, 70000, 200000]) if tier == "quick"
@@ -129,6 +139,9 @@ def gen_history(rng, tier, focus):
                 L.append("PREFIX flush")
             if d == 2:
                 L.append("PREFIX end")
+    if stable and any(l.startswith("STABLE") and l.endswith(" 1") for l in L):
+        # ZSTD_c_stableOutBuffer: a too small destination is a documented error, so give every call ample room
+        L = [(" ".join(l.split()[:3] + ["2097152"] + l.split()[4:]) if l.startswith("C ") else l) for l in L]
     L.append("LAYOUT")
     # decoding histories
     dcaps = [1, 2, 3, 7, 100, bs, bs + 1, 140000, 1 << 20]
